@@ -32,7 +32,14 @@ func VH_C19_metaonly() {
 		src = append(src, e)
 	}
 	if v.Bool("has-listing-name") {
-		add(metadataPath, clsFile)
+		// a source entry that happens to carry the listing's name: a regular file, a symlink or a
+		// directory (never transferred, but it occupies a position in the STAT sequence)
+		cls := []int{clsFile, clsSymlink, clsDir}[v.Choose("class-listing-name", 3)]
+		add(metadataPath, cls)
+		if cls == clsSymlink {
+			src[len(src)-1].stat.Linkname = "d"
+		}
+		v.Cover("listing-name-entry")
 	}
 	add("d", clsDir)
 	if v.Bool("has-d/f") {
